@@ -250,6 +250,26 @@ fn mutations(r: &mut Rng, name: &str) -> Vec<(String, &'static str)> {
         v.remove(i);
         put(v, "drop-one", &mut out);
     }
+    if !c.is_empty() {
+        // a leading / trailing piece of the name repeated ("tcltcl-8.6" for
+        // "tcl-8.6"), and the whole name twice
+        let n = r.range(1, c.len());
+        let mut v = c[..n].to_vec();
+        v.extend_from_slice(&c);
+        put(v, "repeat-head", &mut out);
+        let dash = c.iter().position(|x| *x == '-').unwrap_or(c.len());
+        if dash > 0 {
+            let mut v = c[..dash].to_vec();
+            v.extend_from_slice(&c);
+            put(v, "repeat-head", &mut out);
+        }
+        let mut v = c.clone();
+        v.extend_from_slice(&c[c.len() - n.min(c.len())..]);
+        put(v, "repeat-tail", &mut out);
+        let mut v = c.clone();
+        v.extend_from_slice(&c);
+        put(v, "repeat-all", &mut out);
+    }
     let mut v = c.clone();
     v.push(any_char(r));
     put(v, "append", &mut out);
@@ -447,6 +467,42 @@ pub fn run(cx: &mut Cx) {
         );
     }
 
+    // Glob patterns that collide under common fast hash functions (a cache of
+    // compiled patterns that trusts a hash instead of comparing the text): the
+    // first, the second, the first again, each against names of both.
+    if matches!(cx.tier, Tier::Quick | Tier::Thorough) && cx.mine(5) {
+        let base = |i: usize| -> String {
+            // ten characters from a scrambled index: enough variation for the
+            // hashes to behave randomly on the candidates
+            let mut s = String::new();
+            let mut v = crate::rng::Rng::new(i as u64).next();
+            for _ in 0..10 {
+                s.push(b"abcdefghijklmnopqrstuvwxyz012345"[(v % 32) as usize] as char);
+                v /= 32;
+            }
+            s
+        };
+        let make = |i: usize| format!("py-{}-[0-9]*", base(i));
+        let found = crate::gen::collide::pairs(6_000_000, 6, &make);
+        cx.ev.add("hash-collisions/pairs", found.len() as u64);
+        for (proj, _, _) in &found {
+            cx.ev.count(&format!("hash-collisions/{proj}"));
+        }
+        for (proj, a, b) in &found {
+            let name_of = |p: &str| p.replace("[0-9]*", "1.0");
+            let names: Vec<(String, &'static str)> = vec![(name_of(a), "lang"), (name_of(b), "lang"), (format!("{}nb1", name_of(a)), "lang")];
+            for p in [a, b, a] {
+                cx.check(
+                    || format!("globs colliding under {proj}: pattern {p:?} (pair {a:?} / {b:?})"),
+                    |ev| {
+                        ev.count("workload/hash-collisions");
+                        check_glob_or_plain(ev, p, &names)
+                    },
+                );
+            }
+        }
+    }
+
     // Fast-reject inertness for the other two kinds.
     let n = cx.per_shard(20, 2_000, 96_000, 480_000);
     let mut r = cx.stream("fastpath-other-kinds");
@@ -558,7 +614,7 @@ pub fn run(cx: &mut Cx) {
                 for _ in 0..4 {
                     let nm = sample_ref(&mut r, &toks);
                     let muts = mutations(&mut r, &nm);
-                    cand.extend(muts.iter().filter(|m| m.1 == "confusable").cloned());
+                    cand.extend(muts.iter().filter(|m| m.1 == "confusable" || m.1.starts_with("repeat")).cloned());
                     if r.chance(1, 2) {
                         cand.extend(muts.into_iter().take(6));
                     }
